@@ -372,15 +372,48 @@ def batch_cases(draw, tier="quick"):
     return {"mdps": specs, "cfg": cfg}
 
 
+@st.composite
+def reuse_cases(draw, tier="quick"):
+    fl = draw(st.sampled_from(["discounted", "negative"]))
+    a = draw(mdp_specs(fl, max_states=5))
+    b = draw(mdp_specs(draw(st.sampled_from(["discounted", "negative"])), max_states=5))
+    cfg = draw(_cfg(draw(st.sampled_from(["vi_vec", "vi_dict", "pi"]))))
+    cfg["tiny_cap"] = 0
+    return {"a": a, "b": b, "cfg": cfg}
+
+
+def prop_reuse(case, ctx):
+    """a planner object used on one MDP gives, on the next MDP, what a fresh planner gives"""
+    from msdm.algorithms.valueiteration import ValueIteration
+    from msdm.algorithms.policyiteration import PolicyIteration
+    from vpm.checks.reuse import check_reuse, policy_table
+    cfg = case["cfg"]
+    undef = _undef(cfg)
+
+    def make():
+        if cfg["solver"] == "pi":
+            return PolicyIteration(undefined_value=undef)
+        return ValueIteration(max_residual=cfg["max_residual"], undefined_value=undef,
+                              _version="vectorized" if cfg["solver"] == "vi_vec" else "dict")
+    ma, _ = build_mdp(case["a"])
+    mb, _ = build_mdp(case["b"])
+    check_reuse(ctx, "C01.reuse", make, lambda pl, m: pl.plan_on(m),
+                lambda r, m: {"V": dict(r.state_value.items()), "pi": policy_table(r.policy, list(m.state_list)),
+                              "iv": r.initial_value, "conv": bool(r.converged)}, ma, mb)
+    ctx.nontrivial(case["a"] != case["b"])
+
+
 PROPS = [
-    Prop("vi_vec", strat("vi_vec"), prop_solver, quick=1400, thorough=20000,
+    Prop("vi_vec", strat("vi_vec"), prop_solver, quick=1400, thorough=60000,
          doc="vectorised value iteration vs policy-enumeration oracle"),
-    Prop("vi_dict", strat("vi_dict"), prop_solver, quick=500, thorough=6000,
+    Prop("vi_dict", strat("vi_dict"), prop_solver, quick=500, thorough=18000,
          doc="dict value iteration vs policy-enumeration oracle"),
-    Prop("pi", strat("pi"), prop_solver, quick=1200, thorough=20000,
+    Prop("pi", strat("pi"), prop_solver, quick=1200, thorough=60000,
          doc="policy iteration (plan_on) vs policy-enumeration oracle"),
-    Prop("vi_diff", strat("vi_vec"), prop_vi_diff, quick=200, thorough=4000,
+    Prop("vi_diff", strat("vi_vec"), prop_vi_diff, quick=200, thorough=12000,
          doc="vectorised vs dict value iteration differential"),
-    Prop("pi_batch", lambda tier: batch_cases(tier), prop_pi_batch, quick=200, thorough=5000,
+    Prop("pi_batch", lambda tier: batch_cases(tier), prop_pi_batch, quick=200, thorough=15000,
          doc="PolicyIteration.batch_plan_on vs plan_on vs oracle"),
+    Prop("reuse", lambda tier: reuse_cases(tier), prop_reuse, quick=300, thorough=18000,
+         doc="a planner object reused on a second MDP gives the same result as a fresh planner"),
 ]
